@@ -48,6 +48,12 @@ CHECKS["C19"] = ("exploration",
     "Reads ctparse/time/rules.py with ast; the registry is observed (and temporarily wrapped, then restored) in process.",
     "DESIGN.md 4 (C19)")
 
+CHECKS["C11"] = ("exploration",
+    "Exhaustive sweep of every assigned code point x 4 contexts against a unicodedata reference normaliser; Hypothesis strings (equality with reference, idempotence); metamorphic parse-level variants (separator runs, every dash character, case changes) of corpus/grammar expressions",
+    "The single-code-point sub-domain is enumerated completely (about 290k assigned code points x 4 contexts) - absence of a wrongly normalised code point is established there; multi-character strings and parse-level variants are sampled with Hypothesis; the metamorphic relation compares the returned resolution and the multiset of candidate values.",
+    "Python's unicodedata version is the reference for 'assigned' and for categories.",
+    "DESIGN.md 4 (C11)")
+
 NOT_YET = "check not built yet in this round (see DESIGN.md section 4 for the planned generated-input check)"
 
 
